@@ -116,6 +116,10 @@ fn file_roundtrip(rng: &mut Rng, idx: usize, dir: &std::path::Path) -> Vec<Strin
         let path = dir.join(format!("rt{idx}.c32"));
         let data: Vec<u64> = (0..len).map(|_| rng.next()).collect();
         let (w, r) = new_stream::<Complex>();
+        // Overwrite must truncate: sometimes a longer file is already there
+        if rng.chance(1, 2) {
+            std::fs::write(&path, vec![0xAAu8; len * 8 + rng.range(1, 500)]).unwrap();
+        }
         let mut sink = FileSink::new(r, &path, Mode::Overwrite).unwrap();
         let mut pos = 0;
         while pos < len {
@@ -214,6 +218,79 @@ fn tcp_case(rng: &mut Rng, idx: usize) -> String {
     };
     wr.join().ok();
     verdict("tcp_reassembly", &format!("#{idx} len={len} style={style}"), got, &data)
+}
+
+/// TcpSource under back-pressure: all bytes are in the socket, the output is not drained until it is
+/// full, so the free space shrinks to a single slot while a partial sample is pending. Every call is
+/// predicted (bytes read = min(free slots, bytes left)); no call may report EOF before the peer closes.
+fn tcp_backpressure_case(rng: &mut Rng, idx: usize) -> String {
+    let listener = std::net::TcpListener::bind("127.0.0.1:0").unwrap();
+    let port = listener.local_addr().unwrap().port();
+    let len = rng.range(1000, 1600);
+    let stray = rng.below(4);
+    let data: Vec<u64> = (0..len).map(|_| (rng.next() as u32) as u64).collect();
+    let mut bytes: Vec<u8> = data.iter().flat_map(|v| (*v as u32).to_le_bytes()).collect();
+    bytes.extend(std::iter::repeat(0x55u8).take(stray));
+    let total = bytes.len();
+    let (tx, rx) = std::sync::mpsc::channel::<()>();
+    let (wtx, wrx) = std::sync::mpsc::channel::<()>();
+    let wr = std::thread::spawn(move || {
+        let (mut s, _) = listener.accept().unwrap();
+        s.set_nodelay(true).ok();
+        s.write_all(&bytes).unwrap();
+        s.flush().unwrap();
+        let _ = wtx.send(());
+        let _ = rx.recv();
+    });
+    let id = format!("#{idx} len={len} stray={stray}");
+    let res = quiet(|| -> Result<Vec<u64>, String> {
+        rustradio::verif::set_stream_size(4096);
+        let (mut src, o) = TcpSource::<u32>::new("127.0.0.1", port).map_err(|e| e.to_string())?;
+        // everything is written (and, on loopback, queued at the receiver) before the first read
+        wrx.recv_timeout(std::time::Duration::from_secs(30)).map_err(|e| e.to_string())?;
+        std::thread::sleep(std::time::Duration::from_millis(100));
+        let cap = 1024usize;
+        let mut avail = total;
+        let mut pend = 0usize;
+        let mut in_stream = 0usize;
+        let mut got: Vec<u64> = vec![];
+        let _wd = deadline(60, format!("tcp_backpressure {id}: TcpSource::work()"));
+        while avail > 0 {
+            let free = cap - in_stream;
+            let ret = src.work().map_err(|e| e.to_string())?;
+            if free == 0 {
+                if !matches!(ret, BlockRet::WaitForStream(_, _)) {
+                    return Err(format!("output full: expected a wait for the output, got {ret:?}"));
+                }
+                let (rb, _) = o.read_buf().map_err(|e| e.to_string())?;
+                let n = rb.len();
+                got.extend(rb.slice().iter().map(|v| *v as u64));
+                rb.consume(n);
+                in_stream = 0;
+                continue;
+            }
+            if matches!(ret, BlockRet::EOF) {
+                return Err(format!("EOF with {avail} bytes unread and the peer still connected (free slots {free}, partial sample bytes pending {pend})"));
+            }
+            let r = free.min(avail);
+            avail -= r;
+            let produced = (pend + r) / 4;
+            pend = (pend + r) % 4;
+            in_stream += produced;
+        }
+        let (rb, _) = o.read_buf().map_err(|e| e.to_string())?;
+        let n = rb.len();
+        got.extend(rb.slice().iter().map(|v| *v as u64));
+        rb.consume(n);
+        Ok(got)
+    });
+    let _ = tx.send(());
+    wr.join().ok();
+    let got = match res {
+        Ok(r) => r,
+        Err(p) => Err(format!("panic: {p}")),
+    };
+    verdict("tcp_backpressure", &id, got, &data)
 }
 
 fn sigmf_archive_case(rng: &mut Rng, idx: usize, dir: &std::path::Path) -> Vec<String> {
@@ -371,6 +448,19 @@ pub fn run(args: &[String]) -> Vec<String> {
     let mut rng = Rng::new(seed);
     rustradio::verif::set_stream_size(4096);
     let dir = tempfile::tempdir().unwrap();
+    if arg(args, "--what").as_deref() == Some("tcp") {
+        // only the socket source (used by C15: short reads must not crash it)
+        let mut out = vec![];
+        for i in 0..cases {
+            let mut r = rng.fork();
+            out.push(tcp_case(&mut r, i));
+            if i % 4 == 0 {
+                let mut r = rng.fork();
+                out.push(tcp_backpressure_case(&mut r, i));
+            }
+        }
+        return out;
+    }
     let mut out = codec_lines(&mut rng);
     // reassembly against the Lean model: synthetic chunkings of synthetic bytes
     for _ in 0..cases * 5 {
@@ -412,6 +502,10 @@ pub fn run(args: &[String]) -> Vec<String> {
         out.push(fifo_case(&mut r, i, dir.path()));
         let mut r = rng.fork();
         out.push(tcp_case(&mut r, i));
+        if i % 4 == 0 {
+            let mut r = rng.fork();
+            out.push(tcp_backpressure_case(&mut r, i));
+        }
         let mut r = rng.fork();
         out.extend(sigmf_archive_case(&mut r, i, dir.path()));
         let mut r = rng.fork();
